@@ -22,7 +22,8 @@ tvars == <<l, obs, tid, proj, viols, drift, stats>>
 Ev == Trace[l]
 
 ZeroStats == [traces |-> 0, events |-> 0, acked |-> 0, judged |-> 0, failfacts |-> 0,
-              closes |-> 0, rets |-> 0, conformant |-> 0]
+              closes |-> 0, rets |-> 0, conformant |-> 0, logs |-> 0, leaks |-> 0, postlogs |-> 0,
+              clearcmds |-> 0, enccmds |-> 0, credcmds |-> 0, stalls |-> 0]
 
 TInit == /\ l = 1 /\ obs = InitObs /\ tid = 0 /\ proj = <<>>
          /\ viols = {} /\ drift = {} /\ stats = ZeroStats
@@ -56,7 +57,17 @@ Step ==
           /\ tid' = IF Ev.ev = "begin" THEN l ELSE tid
           /\ proj' = IF Ev.ev = "begin" THEN <<>>
                      ELSE IF IsProjected(Ev) THEN Append(proj, ProjOf(obs, Ev)) ELSE proj
-          /\ IF Ev.ev = "end" THEN AtEnd(o2) ELSE UNCHANGED <<viols, drift, stats>>
+          /\ IF Ev.ev = "end" THEN AtEnd(o2)
+             ELSE /\ UNCHANGED <<viols, drift>>
+                  /\ stats' = CASE Ev.ev = "log" ->
+                                     [stats EXCEPT !.logs = @ + 1, !.leaks = @ + (IF Ev.leak THEN 1 ELSE 0),
+                                                   !.postlogs = @ + (IF Ev.post THEN 1 ELSE 0)]
+                                [] Ev.ev = "cmd" ->
+                                     [stats EXCEPT !.clearcmds = @ + (IF Ev.enc THEN 0 ELSE 1),
+                                                   !.enccmds = @ + (IF Ev.enc THEN 1 ELSE 0),
+                                                   !.credcmds = @ + (IF Ev.cred THEN 1 ELSE 0)]
+                                [] Ev.ev = "stall" -> [stats EXCEPT !.stalls = @ + 1]
+                                [] OTHER -> stats
 
 TSpec == TInit /\ [][Step]_tvars
 
